@@ -4,7 +4,11 @@
 (* -- property C10.                                                        *)
 (*                                                                         *)
 (* A case c is a record                                                    *)
-(*   objs  Seq of [cls, name, named, parent, attrs]; ids 1..n, 1 = root,   *)
+(*   objs  Seq of [cls, name, named, truthy, parent, attrs]; ids 1..n,      *)
+(*         1 = root; named = FALSE: an anonymous object (it can be the     *)
+(*         start of a chain, never a segment); truthy = the Python truth   *)
+(*         value of the object (user classes may define __len__/__bool__;  *)
+(*         irrelevant for the documented semantics);                       *)
 (*         attrs = the attributes in the order of the grammar rule, each   *)
 (*         [k |-> "cont", attr, els]  containment: ordered contained ids   *)
 (*         [k |-> "ref",  attr, els]  non-containment reference attribute  *)
@@ -22,6 +26,9 @@
 (*   FqnWalksRefs    a step may also go to the target of an already        *)
 (*                   resolved non-containment reference of the object;     *)
 (*   FqnWalksParent  a step may also go to the object's parent.            *)
+(*   FqnFalsyTargetSkipped  a chain whose end object is falsy in Python     *)
+(*                   counts as "not found" at that start object            *)
+(*                   (_find_referenced_obj tests `if ret:`).               *)
 (* References are resolved in textual order and loading stops at the first *)
 (* one that cannot be resolved.                                            *)
 (***************************************************************************)
@@ -66,7 +73,9 @@ Chain(c, a, parts, j, res, dev) ==
 \* one reference, given the targets res of the references before it
 Resolve(c, r, res, dev) ==
   LET out == Outward(c, r.owner)
-      Hit(a) == LET t == Chain(c, a, r.parts, 1, res, dev) IN t # 0 /\ Conf(c, t, r.cls)
+      Hit(a) == LET t == Chain(c, a, r.parts, 1, res, dev)
+                IN /\ t # 0 /\ Conf(c, t, r.cls)
+                   /\ ("FqnFalsyTargetSkipped" \in dev => Obj(c, t).truthy)
       I == {j \in 1..Len(out) : Hit(out[j])}
   IN IF I = {} THEN 0
      ELSE Chain(c, out[CHOOSE j \in I : \A m \in I : j <= m], r.parts, 1, res, dev)
